@@ -403,19 +403,47 @@ class SimWorld:
 
 
 class SimSpiDev:
-    """spidev-style bus object (its class name ends in 'SpiDev', so RF24 wraps it in SPIDevCtx)"""
+    """spidev-style bus object (its class name ends in 'SpiDev', so RF24 wraps it in SPIDevCtx).
 
-    def __init__(self, world: SimWorld, idx: int):
-        self.world, self.idx = world, idx
+    It also watches the framing SPIDevCtx is responsible for: the device is (bus 0, device 0), it is opened
+    before and closed after every transfer, and a chip-select *pin* (`csn`) is low during a transfer and released
+    between two transfers.  Breaches go into the radio's violation log (which the model never has)."""
+
+    def __init__(self, world: SimWorld, idx: int, csn: Optional["SimPin"] = None):
+        self.world, self.idx, self.csn = world, idx, csn
         self.no_cs = True
+        self._open = False
+        self._xfers = 0
+
+    def _log(self, what: str):
+        v = self.world.radios[self.idx].violations
+        if what not in v:
+            v.append(what)
 
     def open(self, bus, dev):
+        if (bus, dev) != (0, 0):
+            self._log(f"SPIDEV:opened-bus{bus}-dev{dev}")
+        if self._open:
+            self._log("SPIDEV:opened-twice")
+        self._open = True
         return None
 
     def close(self):
+        self._open = False
         return None
 
     def xfer2(self, out_buf, baud=0):
+        if not self._open:
+            self._log("SPIDEV:transfer-on-closed-device")
+        if self.csn is not None:
+            if self.csn.value:
+                self._log("CSN:high-during-transfer")
+            if self._xfers and not self.csn.rose:
+                self._log("CSN:not-released-between-transfers")
+            self.csn.rose = False
+            if not self.no_cs:
+                self._log("SPIDEV:kernel-chip-select-left-on-with-a-CSN-pin")
+        self._xfers += 1
         return bytearray(self.world.spi(self.idx, bytes(out_buf)))
 
 
@@ -425,6 +453,7 @@ class SimPin:
     def __init__(self, world: Optional[SimWorld] = None, idx: int = 0, ce: bool = False):
         self.world, self.idx, self.is_ce = world, idx, ce
         self._v = False
+        self.rose = False
 
     def switch_to_output(self, value=False):
         self.value = value
@@ -435,6 +464,8 @@ class SimPin:
 
     @value.setter
     def value(self, v):
+        if bool(v) and not self._v:
+            self.rose = True          # a rising edge (chip-select released), consumed by SimSpiDev
         self._v = bool(v)
         if self.is_ce and self.world is not None:
             self.world.set_ce(self.idx, bool(v))
